@@ -22,7 +22,7 @@ import (
 )
 
 func init() {
-	pbt.Describe("cases = (text, signer keys, known-verifier keys, pre-existing signatures on the note, byte-level mutations of the signed message). Texts mix ASCII, Unicode, blank lines, trailing blank lines, lines that look like signature lines, control characters and invalid UTF-8. Keys are real Ed25519 keys (built by the harness from seeds and passed through NewSigner/NewVerifier) and mock algorithms (signature = 8 bytes of SHA-256(key||text)) so that acceptance states are reachable for the shrinker; known sets are arbitrary subsets with duplicates, wrong keys under the right (name,hash), and two different keys under one (name,hash). Mutations: flip/insert/delete bytes, move/duplicate/delete lines, alter name/key id/base64, append up to 101 signature lines. Every verifier records (key, msg, sig, result). Oracle: Open's outcome class, text and signature lists == the noteref model; on success every listed signature has a recorded true verification by the verifier of that (name,hash) over exactly Note.Text with exactly the decoded signature bytes; every verification call was over the returned text; round trip Open(Sign(text)) == text with the documented verified/unverified partition. Non-trivial: the message has a well-formed signature block and (a mutation was applied, or the text contains a blank line or a signature-like line). Distinct by JSON rendering.",
+	pbt.Describe("cases = (text, signer keys, known-verifier keys, pre-existing signatures on the note, byte-level mutations of the signed message). Texts mix ASCII, Unicode, blank lines, trailing blank lines, lines that look like signature lines, control characters and invalid UTF-8. Keys are real Ed25519 keys (built by the harness from seeds and passed through NewSigner/NewVerifier) and mock algorithms (signature = 8 bytes of SHA-256(key||text)) so that acceptance states are reachable for the shrinker; known sets are arbitrary subsets with duplicates, wrong keys under the right (name,hash), and two different keys under one (name,hash). Mutations: flip/insert/delete bytes, move/duplicate/delete lines, alter name/key id/base64, append up to 101 signature lines. Every verifier records (key, msg, sig, result). Oracle: Open's outcome class, text and signature lists == the noteref model; on success every listed signature has a recorded true verification by the verifier of that (name,hash) over exactly Note.Text with exactly the decoded signature bytes; every verification call was over the returned text; round trip Open(Sign(text)) == text with the documented verified/unverified partition. Non-trivial: the message has a well-formed signature block and (a mutation was applied, or the text contains a blank line or a signature-like line). Distinct by JSON rendering. A fifth of the cases open with a caller-written verifier collection instead of VerifierList (keyed by hash alone, by name alone, one verifier for everything, own error for keys it lacks); the model says what each answer leads to (a verifier for another key: Open fails; an error other than unknown-key: returned). The message Sign returned is compared with the documented form again after a later Sign and Open.",
 		"Ed25519 is unforgeable; 64-bit mock signatures do not collide on generated inputs",
 		"a duplicate signature line of an already accepted known key is skipped without verification (pinned by note_test.go), so 'a known key with a bad signature makes opening fail' is read as: the first signature line of each known key",
 		"error classes are compared by type (InvalidSignatureError, UnverifiedNoteError, other), never by message text")
@@ -52,6 +52,7 @@ type noteCase struct {
 	Existing []keySpec // signatures already on the note before Sign (as n.Sigs or n.UnverifiedSigs)
 	ExUnver  []bool    // per existing: goes to UnverifiedSigs
 	ExStale  bool      // the existing signatures were made over an earlier version of the text
+	Lookup   string    // the collection of known verifiers: "" is note.VerifierList, otherwise a caller-written one (see oddVerifiers)
 	Muts     []mutation
 }
 
@@ -161,6 +162,51 @@ func (v impostor) Name() string                { return v.k.Name }
 func (v impostor) KeyHash() uint32             { return v.k.hash() }
 func (v impostor) Verify(msg, sig []byte) bool { return false }
 
+// oddVerifiers is a caller-written note.Verifiers. The interface promises nothing about what an
+// implementation hands back, and Open's documentation says what it does with each answer; the modes are
+// collections a caller could plausibly write: a table keyed by key hash alone, one keyed by name alone,
+// one that holds a single verifier, and one whose backend fails for keys it does not hold.
+type oddVerifiers struct {
+	mode string
+	vs   []note.Verifier
+}
+
+var errBackend = errors.New("verifier store unavailable")
+
+func (o oddVerifiers) Verifier(name string, hash uint32) (note.Verifier, error) {
+	for i, v := range o.vs {
+		switch o.mode {
+		case "byhash":
+			if v.KeyHash() == hash {
+				return v, nil
+			}
+		case "byname":
+			if v.Name() == name {
+				return v, nil
+			}
+		case "first":
+			if i == 0 {
+				return v, nil
+			}
+		default: // "backend-error"
+			if v.Name() == name && v.KeyHash() == hash {
+				return v, nil
+			}
+		}
+	}
+	if o.mode == "backend-error" {
+		return nil, errBackend
+	}
+	return nil, &note.UnknownVerifierError{Name: name, KeyHash: hash}
+}
+
+func mkVerifiers(mode string, vs []note.Verifier) note.Verifiers {
+	if mode == "" {
+		return note.VerifierList(vs...)
+	}
+	return oddVerifiers{mode, vs}
+}
+
 // ---- generators
 
 var names = []string{"a", "b", "sum.golang.org", "localhost.localdev/sumdb", "PeterNeumann", "é", "x/y", "—",
@@ -259,6 +305,9 @@ func genCase(t *rapid.T) noteCase {
 		c.ExUnver = append(c.ExUnver, rapid.Bool().Draw(t, "exunver"))
 	}
 	c.ExStale = ne > 0 && rapid.IntRange(0, 2).Draw(t, "exstale") == 0
+	if gen.Chance(t, 20, "oddlookup") {
+		c.Lookup = []string{"byhash", "byname", "first", "backend-error"}[gen.Uniform(t, 4, "lookupmode")]
+	}
 	nm := []int{0, 0, 1, 1, 1, 2, 3}[rapid.IntRange(0, 6).Draw(t, "nmuts")]
 	for i := 0; i < nm; i++ {
 		c.Muts = append(c.Muts, mutation{
@@ -435,7 +484,7 @@ func classify(err error) string {
 }
 
 func modelClass(c string) string {
-	if c == ref.Malformed || c == ref.Ambiguous {
+	if c == ref.Malformed || c == ref.Ambiguous || c == ref.Mismatch || c == ref.LookupErr {
 		return "other"
 	}
 	return c
@@ -545,6 +594,14 @@ func check(c noteCase) pbt.Result {
 			r.Fail = pbt.Failf("sign-output", "Sign produced\n%q\nthe documented form is\n%q", msg, want.Bytes())
 			return r
 		}
+		// a signed message stays what it is while another note is signed and opened
+		if m2, err := note.Sign(&note.Note{Text: "another note, signed while the first message is held\n"}, signers...); err == nil {
+			note.Open(m2, note.VerifierList())
+		}
+		if !bytes.Equal(msg, want.Bytes()) {
+			r.Fail = pbt.Failf("signed-message-changed-later", "the message Sign returned was the documented one when returned and reads %q after a later Sign and Open", msg)
+			return r
+		}
 	}
 	if err != nil {
 		// still exercise Open on an unsigned rendering so that the parser sees the text
@@ -574,7 +631,44 @@ func check(c noteCase) pbt.Result {
 		}
 		vs = append(vs, rv)
 	}
+	switch c.Lookup {
+	case "", "byhash", "byname", "first", "backend-error":
+	default:
+		r.Skip = true
+		return r
+	}
 	lookup := func(name string, hash uint32) (int, func(text, sig []byte) bool) {
+		if c.Lookup != "" {
+			// what the caller-written collection answers, restated over the key specifications
+			first := true
+			for _, k := range c.Known {
+				if !ref.ValidName(k.Name) {
+					continue
+				}
+				hit := false
+				switch c.Lookup {
+				case "byhash":
+					hit = k.hash() == hash
+				case "byname":
+					hit = k.Name == name
+				case "first":
+					hit = first
+				default:
+					hit = k.Name == name && k.hash() == hash
+				}
+				first = false
+				if hit {
+					if k.Name != name || k.hash() != hash {
+						return -1, nil
+					}
+					return 1, k.trueVerify
+				}
+			}
+			if c.Lookup == "backend-error" {
+				return -2, nil
+			}
+			return 0, nil
+		}
 		count := 0
 		var found keySpec
 		for _, k := range c.Known {
@@ -586,7 +680,12 @@ func check(c noteCase) pbt.Result {
 		return count, found.trueVerify
 	}
 	want := ref.Open(msg, lookup)
-	got, err := note.Open(msg, note.VerifierList(vs...))
+	keepMsg := append([]byte(nil), msg...)
+	got, err := note.Open(msg, mkVerifiers(c.Lookup, vs))
+	if !bytes.Equal(msg, keepMsg) {
+		r.Fail = pbt.Failf("open-writes-message", "Open changed the caller's message bytes")
+		return r
+	}
 	gotClass := classify(err)
 
 	wellFormed := want.Class != ref.Malformed
@@ -596,6 +695,13 @@ func check(c noteCase) pbt.Result {
 		r.Classes = append(r.Classes, "mutated outcome="+want.Class)
 	}
 
+	if c.Lookup != "" {
+		r.Classes = append(r.Classes, "caller-written verifier collection: "+c.Lookup+" outcome="+want.Class)
+	}
+	if want.Class == ref.LookupErr && !errors.Is(err, errBackend) {
+		r.Fail = pbt.Failf("lookup-error-not-returned", "the verifier collection failed with %q for a key of the message, Open returned err=%v", errBackend, err)
+		return r
+	}
 	if gotClass != modelClass(want.Class) {
 		r.Fail = pbt.Failf("open-outcome", "Open outcome %q (err=%v), documented behaviour gives %q; msg=%q", gotClass, err, want.Class, msg)
 		return r
@@ -676,7 +782,7 @@ func check(c noteCase) pbt.Result {
 			vs2 = append(vs2, rv)
 			imp = append(imp, impostor{rv.k})
 		}
-		got2, err2 := note.Open(msg, note.VerifierList(vs2...))
+		got2, err2 := note.Open(msg, mkVerifiers(c.Lookup, vs2))
 		if err2 != nil || got2 == nil || got2.Text != got.Text || !sigsEqual(got2.Sigs, want.Sigs) {
 			r.Fail = pbt.Failf("second-open-differs", "opening the same message twice with the same verifiers gave different results (second: %v)", err2)
 			return r
@@ -697,7 +803,7 @@ func check(c noteCase) pbt.Result {
 			cnt, _ := lookup(name, hash)
 			return cnt, func(text, sig []byte) bool { return false }
 		})
-		_, err3 := note.Open(msg, note.VerifierList(imp...))
+		_, err3 := note.Open(msg, mkVerifiers(c.Lookup, imp))
 		if c3 := classify(err3); c3 != modelClass(wantImp.Class) {
 			r.Fail = pbt.Failf("impostor-open", "after a successful Open, opening the same message with verifiers of the same names and key hashes that reject everything gave %q (err=%v), documented behaviour gives %q", c3, err3, wantImp.Class)
 			return r
